@@ -3,6 +3,8 @@ CONSTANTS
   NV = 2
   StabV = {}
   HasHf = TRUE
+  Absent0 = {}
+  Admin = FALSE
   Cmds = {}
   Rewrites = FALSE
   NP = 2
